@@ -13,7 +13,7 @@ ID_ALPHA = [MISSING, None, 0, 1, -1, 2 ** 63, 10 ** 30, 1.0, 1.5, '', 'a', '1', 
 METHOD_ALPHA = [MISSING, 'js_checked', 'js_loose', 'slowfail', 'byid', 'wrapped', 'whoami', 'ctxp', 'fac1', 'fac2', 'ok', 'noargs', 'echo', 'kwonly', 'rpcerr', 'typed', 'boom', 'ctxm', 'view.vm',
                 'view._hidden', 'view', 'nope', '', 1, None, True, [], {}]
 PARAMS_ALPHA = [MISSING, [], {}, [1], [1, 2], {'a': 1}, {'a': 1, 'b': 2}, {'z': 0}, None, 1, 's', True,
-                [[1, [2, {'x': None}]]], {'v': {'k': [1.5, 'é', False]}}, [1, 2, 3], {'ctx': 'evil', 'a': 1}]
+                [[1, [2, {'x': None}]]], {'v': {'k': [1.5, 'é', False]}}, [1, 2, 3], {'ctx': 'evil', 'a': 1}, [{}], [{'a': 1, 'b': 2}]]
 
 
 def dumps(v: Any) -> str:
@@ -133,6 +133,23 @@ def typed_calls(rng: random.Random, full: bool) -> Iterator[Tuple[str, str, List
         yield 'noargs', 'noargs', p
     for p in ([1], {'x': 1}):
         yield 'unbound', 'noargs', p
+    # by-name parameters wrapped as the single element of an array: an array is positional, whatever it holds
+    yield 'unbound-object-inside-array', 'noargs', [{}]
+    yield 'unbound-object-inside-array', 'whoami', [{}]
+    yield 'unbound-object-inside-array', 'rpcerr', [{'code': 1, 'message': 'm'}]
+    yield 'unbound-object-inside-array', 'slowfail', [{'v': 1}, {'ticks': 0}, {'how': 'rpc'}, {}]
+    yield 'object-inside-array-binds-positionally', 'ok', [{'a': 1, 'b': 2}]
+    yield 'object-inside-array-binds-positionally', 'echo', [{'v': 1}]
+    for p in ([5], {'n': 7}, [10 ** 20]):
+        yield 'annotated-constraint', 'pd_pos', p
+    for p in ([0], [-3], {'n': -1}, ['x'], [None], [], {'m': 1}, [1, 2], [[1]]):
+        yield 'unbound', 'pd_pos', p
+    for p in ([1], {'a': 2}):
+        yield 'underscore-name', '_under', p
+        yield 'underscore-name', 'ns._dotted', p
+    yield 'unbound', '_under', {'zz': 1}
+    for p in ([1], [1, 2], {'a': 1, 'b': 2}):
+        yield 'coroutine-object-of-another-class', 'cowrapped', p
     for p in ([1], {'a': 1}, {'a': 1, 'k': 2}):
         yield 'kwonly', 'kwonly', p
     for p in ([1, 2], {'k': 2}, {'a': 1, 'k': 2, 'z': 3}):
